@@ -18,7 +18,10 @@ MANIFEST = {
              "to and past genesis), reopen points and one (quick) or two (thorough) injected write/index errors at "
              "every durable step; EVERY transition of that graph is replayed against the real headerfs stores "
              "(real files, real bbolt, faults injected through the File/walletdb.DB interfaces) and the list-refinement, "
-             "reopen and failed-append operators of HeaderStoreProps.tla are evaluated by TLC on the observed traces.",
+             "reopen and failed-append operators of HeaderStoreProps.tla are evaluated by TLC on the observed traces. "
+             "A second exhaustive graph of the same spec with Scale=2251 (one header id = a run of 2251 real headers, so "
+             "one WriteHeaders call carries 2251 / 4502 headers, more than wire.MaxBlockHeadersPerMsg) is replayed the "
+             "same way; reads of every real height and hash of a run are projected back to the id.",
         note="Thorough additionally replays 6000 walks over 2500 TLC-simulated behaviours of the same spec with 8 ids, "
              "30 operations, 4 faults (long histories). Bounded: <=5 ids, <=5 operations, <=2 faults in the exhaustive part. Trusts TLC, the Go projection of the read API to ids, and "
              "that I/O errors arrive only through the File / walletdb.DB interfaces. Errors injected into rollbacks are "
@@ -31,7 +34,12 @@ MANIFEST = {
              "of a rollback, while idle), followed by recovery; every crash transition is replayed on the real stores "
              "(the fault wrapper performs the torn write on the real file, then kills the call; descriptors are dropped "
              "and the directory reopened) and RecoverOpens / RecoveredContentLegal / NoTornEntry / FilterNotAhead / "
-             "PostCrashRefinement are evaluated by TLC on what the reopened stores answer.",
+             "PostCrashRefinement are evaluated by TLC on what the reopened stores answer. Also a crash right after "
+             "every database commit of a call: the walletdb.DB proxy counts the commits of each call (label field nc, "
+             "compared with the model's one-per-call as drift) and every commit observed beyond the model's gets its own "
+             "crash-and-recover replay; and a batch-size class Scale=2251 (one header id = a run of 2251 real headers "
+             "written by ONE call, hash lookups of every real hash of a run projected to the id) so that behaviour "
+             "that depends on batches above wire.MaxBlockHeadersPerMsg = 2000 entries is inside the explored graph.",
         note="Crash = process death with completed syscalls durable (no power-loss reordering); bbolt commits atomic. "
              "Multi-store crash points (reorganisation, filter-header batch, import) are covered by the BlockManager / "
              "Import families where claimed, not by this store-level check.",
@@ -48,19 +56,34 @@ PROPS = {
 CODE_VERSION = json.load(open(os.path.join(SPEC, "code_version.json")))
 
 CONFIGS = {
-    ("C07", "quick"): dict(N=5, MaxLen=5, MaxBatch=3, MaxOps=5, MaxFaults=1, MaxCrashes=0, MaxLegacy=1),
-    ("C07", "thorough"): dict(N=5, MaxLen=5, MaxBatch=3, MaxOps=6, MaxFaults=2, MaxCrashes=0, MaxLegacy=1),
-    ("C08", "quick"): dict(N=4, MaxLen=4, MaxBatch=2, MaxOps=4, MaxFaults=0, MaxCrashes=2, MaxLegacy=0),
-    ("C08", "thorough"): dict(N=5, MaxLen=5, MaxBatch=3, MaxOps=5, MaxFaults=1, MaxCrashes=2, MaxLegacy=1),
+    ("C07", "quick"): dict(N=5, MaxLen=5, MaxBatch=3, MaxOps=5, MaxFaults=1, MaxCrashes=0, MaxLegacy=1, Scale=1),
+    ("C07", "thorough"): dict(N=5, MaxLen=5, MaxBatch=3, MaxOps=6, MaxFaults=2, MaxCrashes=0, MaxLegacy=1, Scale=1),
+    ("C08", "quick"): dict(N=4, MaxLen=4, MaxBatch=2, MaxOps=4, MaxFaults=0, MaxCrashes=2, MaxLegacy=0, Scale=1),
+    ("C08", "thorough"): dict(N=5, MaxLen=5, MaxBatch=3, MaxOps=5, MaxFaults=1, MaxCrashes=2, MaxLegacy=1, Scale=1),
 }
 
 # Long histories (thorough tier): `tlc -simulate` on the same specification with larger constants;
 # the behaviours are replayed and judged like the exhaustive graph's paths.
 LONG = {
-    "C07": dict(N=8, MaxLen=8, MaxBatch=3, MaxOps=30, MaxFaults=4, MaxCrashes=0, MaxLegacy=1),
-    "C08": dict(N=8, MaxLen=8, MaxBatch=3, MaxOps=30, MaxFaults=2, MaxCrashes=5, MaxLegacy=1),
+    "C07": dict(N=8, MaxLen=8, MaxBatch=3, MaxOps=30, MaxFaults=4, MaxCrashes=0, MaxLegacy=1, Scale=1),
+    "C08": dict(N=8, MaxLen=8, MaxBatch=3, MaxOps=30, MaxFaults=2, MaxCrashes=5, MaxLegacy=1, Scale=1),
 }
 LONG_SIM = dict(num=2500, depth=32, walks=6000)
+
+# Batch-size classes: the same specification with Scale > 1 - every header id stands for a run of Scale
+# real headers, so one append is ONE WriteHeaders call with Scale..MaxBatch*Scale headers (2251: more than
+# wire.MaxBlockHeadersPerMsg = 2000 per id, the size class of header import batches; 2000: exactly a
+# full headers message per id).  Exhaustive graph, every transition replayed.
+BIG = {
+    ("C07", "quick"): [dict(N=3, MaxLen=3, MaxBatch=2, MaxOps=2, MaxFaults=1, MaxCrashes=0, MaxLegacy=0, Scale=2251)],
+    ("C07", "thorough"): [dict(N=4, MaxLen=4, MaxBatch=3, MaxOps=3, MaxFaults=1, MaxCrashes=0, MaxLegacy=1, Scale=2251),
+                          dict(N=3, MaxLen=3, MaxBatch=2, MaxOps=3, MaxFaults=1, MaxCrashes=0, MaxLegacy=0, Scale=2000)],
+    ("C08", "quick"): [dict(N=3, MaxLen=3, MaxBatch=2, MaxOps=2, MaxFaults=0, MaxCrashes=1, MaxLegacy=0, Scale=2251)],
+    ("C08", "thorough"): [dict(N=4, MaxLen=4, MaxBatch=3, MaxOps=3, MaxFaults=0, MaxCrashes=2, MaxLegacy=1, Scale=2251),
+                          dict(N=3, MaxLen=3, MaxBatch=2, MaxOps=3, MaxFaults=0, MaxCrashes=1, MaxLegacy=0, Scale=2000)],
+}
+STORE_CALLS = ("AppendB", "AppendF", "RollbackB", "RollbackF")
+ADAPTIVE_MAX = 96
 
 ASSUMPTIONS = [
     "a crash is process death: every completed write/truncate/bbolt commit is durable, an interrupted "
@@ -70,6 +93,12 @@ ASSUMPTIONS = [
     "I/O errors are injected through the headerfs.File and walletdb.DB interfaces the stores use; "
     "errors inside bbolt itself are not modelled",
     "header ids are interchangeable, so appends always take the smallest unused ids",
+    "batch-size classes: in the Scale > 1 configurations a header id stands for a run of Scale real headers "
+    "written by one call; reads of every real height / hash of a run are projected to the id (G when the "
+    "members of a run answer differently); block locators are read for the first, last, 2000th and 2001st "
+    "member of a run only",
+    "crash points inside a call exist after every file write prefix, between the durable steps and after "
+    "every database commit the call is observed to make (counted by the walletdb.DB proxy)",
 ]
 
 
@@ -116,6 +145,126 @@ def multi_store(tier, seed, t0):
     ev["wall_s"] = round(time.time() - t0, 2)
     json.dump(ev, open(fn + ".tmp", "w"), indent=1)
     os.replace(fn + ".tmp", fn)
+    return rc
+
+
+def _merge(prop_id, key, cov, observed, n_new):
+    fn = os.path.join(os.environ.get("VERIF_EVIDENCE_DIR", os.path.join(core.VERIF, "evidence")), prop_id + ".json")
+    ev = json.load(open(fn))
+    c = ev["coverage"]
+    c.setdefault(key, []).append(cov)
+    c["states"] += cov.get("states", 0)
+    c["transitions"] += cov.get("transitions", 0)
+    c["traces_validated_against_impl"] += len(observed)
+    ev["violations"] = ev.get("violations", 0) + n_new
+    json.dump(ev, open(fn + ".tmp", "w"), indent=1)
+    os.replace(fn + ".tmp", fn)
+
+
+def _report(prop_id, verdict, what, consts):
+    rc = 0
+    for kid, k in sorted(verdict["known"].items()):
+        print("KNOWN-FINDING: property=%s %s [%s; seen on %d replayed traces, e.g. %s]" % (
+            prop_id, k["entry"]["what_fails"], kid, k["count"], " ".join(k["example"])))
+    for v in verdict["violations"][:5]:
+        fn = core.save_replay(prop_id, {"property": prop_id, "props": v["props"], "step": v["step"],
+                                        "labels": v["labels"], "trace": v["observed"], "config": consts})
+        print("VIOLATION property=%s replay=%s" % (prop_id, fn))
+        print("  violated: %s at step %d of (%s): %s" % (",".join(v["props"]), v["step"], what, " ".join(v["labels"])))
+        rc = 1
+    return rc
+
+
+def big_batches(prop_id, tier, seed, rng, binary, sc):
+    """Batch-size classes (Scale > 1): exhaustive graph of the same specification, every transition replayed
+    with runs of Scale real headers per id.  Returns (rc, observed traces of all classes)."""
+    import sys
+    rc, all_obs = 0, []
+    for n, cfg in enumerate(BIG.get((prop_id, tier), [])):
+        consts = dict(cfg)
+        consts.update(CODE_VERSION)
+        t1 = time.time()
+        tlc = core.run_tlc([SPEC], "HeaderStore", consts, workers=1, invariants=["TypeOK", "AbsBounded"],
+                           workdir=os.path.join(sc, "tlcbig%d" % n), timeout=3000)
+        if not tlc.ok:
+            raise core.MachineryError("TLC on HeaderStore (Scale=%d) failed: %s\n%s" % (
+                cfg["Scale"], tlc.error, tlc.stdout_tail[-3000:]))
+        g = core.Graph.load(tlc)
+        paths, unreach = core.edge_cover(g, rng)
+        pf = os.path.join(sc, "paths_big%d.ndjson" % n)
+        core.write_paths(g, paths, pf)
+        observed, log = family.run_driver(binary, "TestVerifHeaderStoreReplay", pf,
+                                          os.path.join(sc, "obs_big%d.ndjson" % n), sc)
+        errs = [t for t in observed if t.get("error")]
+        if errs:
+            raise core.MachineryError("driver error on a Scale=%d path: %s" % (cfg["Scale"], errs[0]["error"][:2000]))
+        verdict = family.judge([SPEC], "HeaderStoreProps", PROPS[prop_id], prop_id, observed, label=label)
+        dr = family.drift(pf, observed, label=label)
+        rc = max(rc, _report(prop_id, verdict, "Scale=%d: one id = %d real headers" % (cfg["Scale"], cfg["Scale"]), consts))
+        if dr[1]:
+            print("drift: %d of %d Scale=%d paths left the model's prediction (not a verdict)" % (
+                dr[1], len(observed), cfg["Scale"]), file=sys.stderr)
+        sizes = sorted({len(s["act"].get("batch", [])) * cfg["Scale"] for t in observed for s in t["steps"]
+                        if s["act"]["op"].startswith("Append")})
+        _merge(prop_id, "batch_size_classes", {
+            "config": consts, "states": max(1, tlc.distinct), "transitions": len(g.edges),
+            "replayed_paths": len(observed), "replayed_steps": sum(len(t["steps"]) for t in observed),
+            "real_headers_per_write_call": sizes,
+            "max_db_commits_per_call": max([s["act"].get("nc", 0) for t in observed for s in t["steps"]] + [0]),
+            "judged_lines_by_tlc": verdict["n_lines"], "drift_paths": dr[1], "drift_samples": dr[2][:2],
+            "new_violations": len(verdict["violations"]), "wall_s": round(time.time() - t1, 1)},
+            observed, len(verdict["violations"]))
+        all_obs += observed
+    return rc, all_obs
+
+
+def adaptive_crashes(prop_id, seed, rng, binary, sc, observed):
+    """Crash points after EVERY database commit a call was observed to make.  The model says at most one
+    commit per call (act.nc, compared as drift); wherever the code made more (nc >= 2), the same history is
+    replayed with the process dying after the j-th commit, j = 1..nc-1, followed by Recover, and the recovered
+    stores are judged by the C08 clauses like any other crash.  Nothing to do on code that commits once."""
+    cand, seen = [], set()
+    for t in observed:
+        if t.get("error"):
+            continue
+        steps = [s for s in t["steps"] if not s.get("note")]
+        for i, s in enumerate(steps):
+            a = s["act"]
+            if a["op"] in STORE_CALLS and a.get("nc", 0) >= 2 and a["res"] != "crash":
+                for j in range(1, a["nc"]):
+                    key = (tuple(label(x["act"]) for x in steps[:i + 1]), j, a.get("sc", 1))
+                    if key in seen:
+                        continue
+                    seen.add(key)
+                    crash = dict(a, stop="cdb", sn=j, res="crash", nc=j)
+                    rec = dict(op="Recover", batch=[], n=0, stop="none", sn=0, res="ok", nc=0, sc=a.get("sc", 1))
+                    cand.append({"init_obs": t.get("init_obs"),
+                                 "steps": [{"act": x["act"]} for x in steps[:i]] + [{"act": crash}, {"act": rec}]})
+    total = len(cand)
+    if not cand:
+        _merge(prop_id, "crash_after_each_observed_db_commit", {"calls_with_more_commits_than_modelled": 0,
+                                                                "replayed_paths": 0}, [], 0)
+        return 0
+    # shortest histories first, then a seeded sample
+    cand.sort(key=lambda c: len(c["steps"]))
+    head, rest = cand[:ADAPTIVE_MAX // 2], cand[ADAPTIVE_MAX // 2:]
+    rng.shuffle(rest)
+    cand = head + rest[:ADAPTIVE_MAX - len(head)]
+    pf = os.path.join(sc, "paths_adaptive.ndjson")
+    with open(pf, "w") as f:
+        for i, c in enumerate(cand):
+            c["id"] = i
+            f.write(json.dumps(c) + "\n")
+    obs2, log = family.run_driver(binary, "TestVerifHeaderStoreReplay", pf, os.path.join(sc, "obs_adaptive.ndjson"), sc)
+    errs = [t for t in obs2 if t.get("error")]
+    if errs:
+        raise core.MachineryError("driver error on an adaptive crash path: %s" % errs[0]["error"][:2000])
+    verdict = family.judge([SPEC], "HeaderStoreProps", PROPS[prop_id], prop_id, obs2, label=label)
+    rc = _report(prop_id, verdict, "crash after a database commit the model does not have", None)
+    _merge(prop_id, "crash_after_each_observed_db_commit", {
+        "calls_with_more_commits_than_modelled": total, "replayed_paths": len(obs2),
+        "judged_lines_by_tlc": verdict["n_lines"], "new_violations": len(verdict["violations"])},
+        obs2, len(verdict["violations"]))
     return rc
 
 
@@ -192,6 +341,11 @@ def run(prop_id, tier, seed, replay=None):
         rc = family.finish(prop_id, tier, seed, t0, tlc, g, paths, observed, verdict, dr,
                            {"config": consts, "edges_only_reachable_through_model_violation": unreach},
                            ASSUMPTIONS, label=label)
+        if not replay:
+            rc2, big_obs = big_batches(prop_id, tier, seed, rng, binary, sc)
+            rc = max(rc, rc2)
+            if prop_id == "C08":
+                rc = max(rc, adaptive_crashes(prop_id, seed, rng, binary, sc, observed + big_obs))
         if tier == "thorough" and not replay:
             rc = max(rc, long_histories(prop_id, seed, rng, binary, sc))
         if prop_id == "C08" and not replay:
